@@ -404,7 +404,8 @@ class ServerBase:
             try:
                 outgoing[0].send((outgoing[1], outgoing[2]))
             except (EOFError, OSError):
-                self.handle_disconnect(outgoing[0])
+                # The main loop sees the closed connection and disconnects it;
+                # doing it here too races with that and shuts the node down.
                 _logger.warning('Connection reset while sending message.')
                 continue
 
